@@ -50,10 +50,13 @@ def gen_constants():
         if rc != 0:
             return False, out[-2000:]
     # function translator: pure integer functions of the Rust sources -> Generated/Functions.lean (tools/gen_functions.py)
-    g2 = os.path.join(ROOT, "tools", "gen_functions.py")
-    if os.path.exists(g2):
-        rc, out = sh([sys.executable, g2], cwd=ROOT, timeout=120)
-        return rc == 0, out[-2000:]
+    # step-order translator: the order of the effectful steps of commit / sync / recovery functions -> Generated/StepOrder.lean (tools/gen_steps.py)
+    for g2 in ("gen_functions.py", "gen_steps.py"):
+        g2 = os.path.join(ROOT, "tools", g2)
+        if os.path.exists(g2):
+            rc, out = sh([sys.executable, g2], cwd=ROOT, timeout=120)
+            if rc != 0:
+                return False, out[-2000:]
     return True, ""
 
 
